@@ -635,3 +635,12 @@ def shrink_blocks(g, bi, still_bad, budget=14):
         else:
             j += 1
     return best, bbi
+
+
+def save_mismatch(ctx, rep):
+    """full replay object of a broken correspondence (ctx.broken only keeps a short message)"""
+    os.makedirs(vlib.REPLAYS, exist_ok=True)
+    body = json.dumps(rep, sort_keys=True, indent=1, default=list)
+    path = os.path.join(vlib.REPLAYS, "%s_mismatch_%s.json" % (ctx.pid, hashlib.sha1(body.encode()).hexdigest()[:12]))
+    open(path, "w").write(body)
+    return path
